@@ -6,8 +6,13 @@ characters at the 1-based positions i..j (both ends included) of that character 
 index counts from the end (−1 = last character); a start before the first character or an end past the
 last one is an exception; start after end gives the empty text.  `分隔` cuts the text at every leftmost,
 non-overlapping occurrence of the separator; an empty separator cuts between all characters.
+
+A history applies steps to one text; the step vocabulary (`Step`: only syntax) is the model's.
 -/
+import ZnVerif.Model.TextOps
+
 namespace ZnVerif.Spec.TextOps
+open ZnVerif.Model.TextOps (Step)
 
 inductive SliceErr where
   | startIndex | endIndex
@@ -54,5 +59,34 @@ def replaceFirst (pat rep : List Nat) : List Nat → List Nat
 (the observables of a text are a function of its current characters, so this is all a history needs) -/
 def numberRewrite (t : List Nat) : List Nat :=
   replaceFirst [0x2A, 0x31, 0x30, 0x5E] [0x65] (replaceFirst [0x2A, 0x5E] [0x65] t)
+
+/-! ### one text over a history: every observable is a function of the text's CURRENT characters; the only step
+that changes them is 转换数值 -/
+
+/-- what a step shows (characters) -/
+inductive SpecObs where
+  | len (n : Nat)
+  | chars (cs : List (List Nat))     -- the character array: one one-character text per character
+  | slice (r : Except SliceErr (List Nat))
+  | text (t : List Nat)
+  | converted
+
+/-- one step on the text `t`: (what it shows, the text afterwards) -/
+def step (t : List Nat) : Step → SpecObs × List Nat
+  | .len => (.len t.length, t)
+  | .chars => (.chars (t.map fun c => [c]), t)
+  | .slice i j => (.slice (slice t i j), t)
+  | .text => (.text t, t)
+  | .toNumber => (.converted, numberRewrite t)
+
+/-- the text after a history -/
+def stateAfter : List Step → List Nat → List Nat
+  | [], t => t
+  | st :: r, t => stateAfter r (step t st).2
+
+/-- the observations of a history, in order -/
+def runHistory : List Step → List Nat → List SpecObs
+  | [], _ => []
+  | st :: r, t => (step t st).1 :: runHistory r (step t st).2
 
 end ZnVerif.Spec.TextOps
